@@ -250,6 +250,15 @@ def main():
         sys.exit(2)
     fam = family(tier)
     res = P.run_all(ext, [(pid, src) for pid, src, _ in fam], run=True)
+    # the run-time layer must not depend on debug assertions: the hand-declared probes once more
+    # against the library built in the release-like profile
+    ext_rel = P.build_libs(profile="rel")
+    if ext_rel is None:
+        sys.exit(2)
+    hand = [(pid + ".release", src, kind) for pid, src, kind in fam if pid.startswith("bad.hand.")]
+    res_rel = P.run_all(ext_rel, [(pid, src) for pid, src, _ in hand], run=True, release=True)
+    fam = fam + hand
+    res = res + res_rel
     violations, outcomes, samples = [], {}, []
     nontrivial = 0
     for (pid, src, kind), r in zip(fam, res):
